@@ -14,6 +14,7 @@ EXTENDS SignerAuthProps
 
 CONSTANTS MaxSigs,      \* signatures in a file (<= 4)
           MaxSteps,     \* signapp invocations on the same -o path (<= 3)
+          MaxOps,       \* operations on one loaded SignerAuthorization object (<= 3)
           Tools         \* subset of {"none", "key", "eth", "manual_ok", "manual_bad", "manual_spell"}
 
 HL == 2
@@ -175,13 +176,19 @@ VARIABLES pc, env, hash, iter, sigs,     \* env: record of Env choices (for gene
 vars == <<pc, env, hash, iter, sigs, fx, obs, verdict, hist>>
 
 Env0 == [hcls |-> "?", icls |-> "?", m |-> 0, mut |-> "none", at |-> 0, kind |-> "?", tool |-> "?",
-         steps |-> <<>>, cur |-> "?", k |-> 0]
+         steps |-> <<>>, mode |-> "single", ops |-> <<>>, cur |-> "?", k |-> 0]
 NoHash == [cls |-> "?", kind |-> "other", s |-> <<>>]
 NoIter == It("?", "none", 0, <<>>)
 
 Init == /\ pc = "build" /\ env = Env0 /\ hash = NoHash /\ iter = NoIter /\ sigs = <<>> /\ fx = FALSE
         /\ obs = InitObs /\ verdict = "" /\ hist = <<>>
 
+Emit2(e1, e2) ==
+    LET o1 == Observe(obs, e1, HL)
+        v1 == IF verdict # "" THEN verdict ELSE Judge(obs, e1, HL) IN
+    /\ obs' = Observe(o1, e2, HL)
+    /\ verdict' = IF v1 # "" THEN v1 ELSE Judge(o1, e2, HL)
+    /\ hist' = hist \o <<e1.k, e2.k>>
 Emit(e) == /\ obs' = Observe(obs, e, HL)
            /\ verdict' = IF verdict # "" THEN verdict ELSE Judge(obs, e, HL)
            /\ hist' = Append(hist, e.k)
@@ -232,7 +239,7 @@ Build == pc = "build" /\ (StartAbsent \/ BuildGood \/ BuildBadHash \/ BuildBadIt
 
 \* authorize with a file the loader refuses: nothing is sent, the command fails
 RefusedAuthorize ==
-    /\ pc = "refused" /\ Emit([k |-> "outcome", authorized |-> "f", exc |-> "ValueError"])
+    /\ pc = "refused" /\ Emit([k |-> "outcome", authorized |-> "f", exc |-> "ValueError", fresh |-> "f"])
     /\ pc' = "done" /\ UNCHANGED <<env, hash, iter, sigs, fx>>
 
 File(ss) == [hash |-> Lower(hash.s), iter |-> SysIter(iter), sigs |-> ss]
@@ -378,15 +385,84 @@ SendSig ==
             /\ pc' = IF i = env.k THEN "finish" ELSE "sign"
     /\ UNCHANGED <<env, hash, iter, sigs, fx>>
 
+SigVerApduSys == <<CLA, SIGNER_AUTH, 1>> \o PyFromHex(hash.s) \o
+                 <<SysIter(iter) \div 256, SysIter(iter) % 256>>
 Finish ==
     /\ pc = "finish"
-    \* "Not enough signatures" is an HSM2DongleError; a device status word an HSM2DongleErrorResult
+    \* "Not enough signatures" is an HSM2DongleError; a device status word an HSM2DongleErrorResult.
+    \* `fresh`: what the same operation gives on a freshly loaded copy of the same content -- the
+    \* code keeps no state between operations, so the same
     /\ Emit([k |-> "outcome", authorized |-> IF obs.done THEN "t" ELSE "f",
              exc |-> IF obs.done THEN "none"
-                     ELSE IF obs.sigver = "err" THEN "HSM2DongleErrorResult" ELSE "HSM2DongleError"])
-    /\ pc' = "done" /\ UNCHANGED <<env, hash, iter, sigs, fx>>
+                     ELSE IF obs.sigver = "err" THEN "HSM2DongleErrorResult" ELSE "HSM2DongleError",
+             fresh |-> IF obs.done THEN "t" ELSE "f"])
+    /\ pc' = "authdone" /\ UNCHANGED <<env, hash, iter, sigs, fx>>
+AfterAuth ==
+    /\ pc = "authdone" /\ pc' = IF env.mode = "history" THEN "hist" ELSE "done"
+    /\ UNCHANGED <<env, hash, iter, sigs, fx, obs, verdict, hist>>
 
-Next == Build \/ RefusedAuthorize \/ Tool \/ RoundTrip \/ SigVer \/ SendSig \/ Finish
+(***************************************************************************)
+(* Histories on ONE loaded SignerAuthorization object: 2..MaxOps           *)
+(* operations out of                                                       *)
+(*   auth_new   HSM2Dongle.authorize_signer(obj) against a new device      *)
+(*              (current iteration below / not below, threshold at k /     *)
+(*              never)                                                     *)
+(*   auth_same  ... against the device of the previous operation: it       *)
+(*              answers SIGVER with an error (iteration no longer above    *)
+(*              the current one after a success, protocol error after an   *)
+(*              unfinished attempt)                                        *)
+(*   dict save sigs ver   to_dict() / save_to_jsonfile + reload /          *)
+(*              .signatures / .signer_version: the object's content        *)
+(*   add add_bad          add_signature(good / malformed)                  *)
+(* The unchanged code keeps the object's content across authorize (the     *)
+(* exchange reads a copy of the list), so Sys's `sigs` only changes by add.*)
+(***************************************************************************)
+HistOps == {"auth_new", "auth_same", "dict", "save", "sigs", "ver", "add", "add_bad"}
+Content == [hash |-> Lower(hash.s), iter |-> SysIter(iter), sigs |-> sigs]
+StartHistory ==
+    /\ pc = "sigver" /\ env.mut = "none" /\ hash = H0 /\ iter = I0 /\ env.steps = <<>>
+    /\ env' = [env EXCEPT !.mode = "history"] /\ pc' = "hist"
+    /\ UNCHANGED <<hash, iter, sigs, fx, obs, verdict, hist>>
+HOp ==
+    /\ pc = "hist" /\ Len(env.ops) < MaxOps
+    /\ \E op \in HistOps, k \in (1..MaxSigs) \cup {NEVER}, cur \in {"below", "notbelow"} :
+         LET nops == Len(env.ops)
+             auth == op \in {"auth_new", "auth_same"}
+             s    == IF op = "add" THEN GoodSig(112 + Len(sigs)) ELSE BadSig(112 + Len(sigs), "trail")
+             okadd == op = "add" /\ SysSigOK(s) IN
+         /\ (op = "auth_new") => /\ (k # NEVER => k \in {1, Len(sigs)} /\ k <= Len(sigs))
+                                  /\ (cur = "notbelow" => k = NEVER)
+         /\ (op = "auth_same") => (nops = 1 /\ env.ops[1].op = "auth_new" /\ k = NEVER /\ cur = "notbelow")
+         /\ ~auth => (k = NEVER /\ cur = "below")
+         /\ (op \in {"add", "add_bad"}) => Len(sigs) < MaxSigs
+         \* the last of three operations: authorize against a new device, or save
+         /\ (nops = 2) => \/ op = "save"
+                           \/ (op = "auth_new" /\ cur = "below"
+                               /\ k = IF Len(sigs) = 0 THEN NEVER ELSE Len(sigs))
+         /\ env' = [env EXCEPT !.ops = Append(@, [op |-> op, k |-> k, cur |-> cur]), !.k = k, !.cur = cur]
+         /\ IF auth THEN
+                /\ Emit2([k |-> "begin"],
+                         IF cur = "below"
+                         THEN [k |-> "apdu", apdu |-> SigVerApduSys, sw |-> SW_OK, resp |-> <<CLA, SIGNER_AUTH, 1>>]
+                         ELSE [k |-> "apdu", apdu |-> SigVerApduSys,
+                               sw |-> IF op = "auth_same" THEN 27137 ELSE 27139, resp |-> <<>>])
+                /\ pc' = IF cur = "below" THEN "sign" ELSE "finish"
+                /\ UNCHANGED sigs
+            ELSE IF op \in {"add", "add_bad"} THEN
+                /\ sigs' = IF okadd THEN Append(sigs, s) ELSE sigs
+                /\ Emit([k |-> "add", given |-> s, ok |-> IF okadd THEN "t" ELSE "f",
+                         after |-> [Content EXCEPT !.sigs = IF okadd THEN Append(sigs, s) ELSE sigs]])
+                /\ UNCHANGED pc
+            ELSE /\ LET c(via) == [k |-> "content", via |-> via, hash |-> Content.hash,
+                                    iter |-> Content.iter, sigs |-> Content.sigs] IN
+                    IF op = "save" THEN Emit2(c("disk"), c("reload")) ELSE Emit(c(op))
+                 /\ UNCHANGED <<pc, sigs>>
+    /\ UNCHANGED <<hash, iter, fx>>
+HistDone == /\ pc = "hist" /\ Len(env.ops) >= 2 /\ pc' = "done"
+            /\ UNCHANGED <<env, hash, iter, sigs, fx, obs, verdict, hist>>
+
+Next == Build \/ RefusedAuthorize \/ Tool \/ RoundTrip \/ SigVer \/ SendSig \/ Finish \/ AfterAuth
+        \/ StartHistory \/ HOp \/ HistDone
 Spec == Init /\ [][Next]_vars
 
 Terminal == pc = "done"
@@ -407,12 +483,14 @@ FileNamesItsVersion == Clause("FileNamesItsVersion")
 AuthorizedIff       == Clause("AuthorizedIff") /\ Clause("AllSentBeforeFailing")
 DocumentedFailure   == Clause("DocumentedFailure")
 \* model-level restatement of the exchange clause on Env's own k (not through obs)
-AuthorizedIffK == Terminal /\ obs.st = "built" /\ env.cur = "below"
+ObjectUnchanged == Clause("ObjectUnchanged") /\ Clause("SameAsFreshLoad")
+AuthorizedIffK == pc = "authdone" /\ obs.st = "built" /\ env.cur = "below"
                     => (obs.done <=> env.k <= Len(sigs)) /\ (obs.done => obs.sent = 1 + env.k)
                        /\ (~obs.done => obs.sent = 1 + Len(sigs))
 \* action properties: the exchange only ever moves forward by one, and not at all once authorised
-StopsAtSuccess == [][obs.done => obs'.sent = obs.sent]_vars
-OneAtATime     == [][obs'.sent \in {obs.sent, obs.sent + 1} \/ pc = "build"]_vars
+\* (a new operation of a history starts its own exchange)
+StopsAtSuccess == [][obs.done => (obs'.sent = obs.sent \/ pc = "hist")]_vars
+OneAtATime     == [][obs'.sent \in {obs.sent, obs.sent + 1} \/ pc \in {"build", "hist"}]_vars
 \* vacuity guards: must be *violated* (negative configurations)
 NeverAuthorized == ~obs.done
 NeverRefused    == obs.st # "refused"
